@@ -49,7 +49,9 @@ WANTED = [("sbdfstring.c", "sbdf_convert_utf8_to_iso88591"), ("sbdfstring.c", "s
           # releasing containers; unlinking a metadata entry
           ("metadata.c", "sbdf_md_remove"), ("metadata.c", "sbdf_md_destroy"),
           ("columnslice.c", "sbdf_cs_destroy_all"), ("columnslice.c", "sbdf_cs_destroy"),
-          ("tableslice.c", "sbdf_ts_create"), ("tableslice.c", "sbdf_ts_destroy"), ("tablemetadata.c", "sbdf_tm_destroy")]
+          ("tableslice.c", "sbdf_ts_create"), ("tableslice.c", "sbdf_ts_destroy"), ("tablemetadata.c", "sbdf_tm_destroy"),
+          # growing arrays of pointers
+          ("internals.c", "sbdf_alloc"), ("tableslice.c", "sbdf_ts_add"), ("columnslice.c", "sbdf_cs_add_property")]
 CALLABLE = set(w[1] for w in WANTED if len(w) == 2) | {"sbdf_swap"}
 
 
@@ -85,6 +87,10 @@ def call_stmt(ret, n, scope, value_args_only=False):
         u = strip_casts(a)
         if value_args_only and (u.get("kind") == "UnaryOperator" and u.get("opcode") == "&"):
             raise Untranslatable("a call inside an expression that passes an address")
+        if u.get("kind") == "UnaryOperator" and u.get("opcode") == "&" and member_cell(unparen(u["inner"][0]), scope) is not None and not value_args_only:
+            p_, fp, idx, isp = member_cell(unparen(u["inner"][0]), scope)
+            if fp.w or fp.io: raise Untranslatable("address of a field reached through side effects")
+            args.append("(AVal (EFieldAddr %s (EConst %d)))" % (p_, idx)); continue
         if u.get("kind") == "UnaryOperator" and u.get("opcode") == "&":
             t = unparen(u["inner"][0])
             if t.get("kind") == "MemberExpr" and t.get("name") == "id" and t.get("isArrow"):
@@ -151,6 +157,8 @@ def elem_size(t):
     return None
 
 
+LASTFIELD = [None]
+CELLS_MODE = [False]      # the function has a void** parameter: it allocates arrays of pointers (sbdf_alloc)
 STRUCTS = {}          # struct name -> [(field name, C type)]: one cell per field (a value type is a struct with the one int field id)
 
 
@@ -203,6 +211,8 @@ def member_cell(s, scope):
     if sn is None: return None
     p, f = expr(s["inner"][0], scope)
     idx, isp = field_of(sn, s["name"])
+    f.r.add("->%s.%d" % (sn, idx))
+    LASTFIELD[0] = "->%s.%d" % (sn, idx)
     return p, f, idx, isp
 
 
@@ -263,6 +273,7 @@ def expr(n, scope):
         t = n.get("argType", {}).get("qualType") or (qt(unparen(n["inner"][0])) if n.get("inner") else "")
         if t in ("char", "unsigned char", "signed char"): return "(EConst 1)", Fx()
         if t in ("int", "unsigned int"): return "(EConst 4)", Fx()
+        if is_ptr_t(t): return "(EConst 8)", Fx()              # LP64
         raise Untranslatable("sizeof " + str(t))
     if k == "CallExpr":
         callee = unparen(n["inner"][0])
@@ -342,11 +353,16 @@ def expr(n, scope):
             a_, fa = expr(n["inner"][1], scope); b_, fb = expr(n["inner"][2], scope)
             if fa.w or fb.w: raise Untranslatable("strcmp arguments with side effects")
             return "(EStrcmp %s %s)" % (a_, b_), fx_join(fa, fb)
+        if cname == "realloc" and len(n["inner"]) == 3 and CELLS_MODE[0]:
+            p_, fp = expr(n["inner"][1], scope); e_, f_ = expr(n["inner"][2], scope)
+            if fp.w or f_.w or f_.io: raise Untranslatable("realloc arguments with side effects")
+            f_ = fx_join(fp, f_); f_.io = True
+            return "(ERealloc %s %s)" % (p_, e_), f_
         if cname == "malloc" and len(n["inner"]) == 2:
             e_, f_ = expr(n["inner"][1], scope)
             if f_.w or f_.io: raise Untranslatable("malloc size with side effects")
             f_.io = True
-            return "(EMalloc %s)" % e_, f_
+            return "(%s %s)" % ("EMallocCells" if CELLS_MODE[0] else "EMalloc", e_), f_
         if cname == "free" and len(n["inner"]) == 2:
             e_, f_ = expr(n["inner"][1], scope)
             f_.io = True
@@ -404,7 +420,7 @@ def expr(n, scope):
             if s.get("kind") == "UnaryOperator" and s.get("opcode") == "*" and is_pp(qt(unparen(s["inner"][0]))):
                 pv = unparen(s["inner"][0])
                 while pv.get("kind") == "ImplicitCastExpr": pv = unparen(pv["inner"][0])
-                if not (pv.get("kind") == "DeclRefExpr" and pv.get("referencedDecl", {}).get("kind") == "ParmVarDecl"):
+                if not (pv.get("kind") == "DeclRefExpr" and pv.get("referencedDecl", {}).get("kind") == "ParmVarDecl") or norm_t(qt(pv)) == "void**":
                     p, f = expr(s["inner"][0], scope)
                     return "(ECellLoad %s (EConst 0) %s)" % (p, coq_bool(is_ptr_t(qt(s)))), f
                 nm = "*" + pv["referencedDecl"]["name"]; OUTPARAMS.add(nm)
@@ -458,6 +474,11 @@ def expr(n, scope):
     if k == "UnaryOperator":
         op = n.get("opcode")
         sub = n["inner"][0]
+        if op in ("++", "--") and member_cell(sub, scope) is not None and qt(unparen(sub)) == "int":
+            p_, fp, idx, isp = member_cell(sub, scope)
+            if fp.w or fp.io: raise Untranslatable(op + " on a field reached through side effects")
+            fp.w.add(LASTFIELD[0])
+            return "(ECellStepF %s (EConst %d) %s %s)" % (p_, idx, zlit(1 if op == "++" else -1), coq_bool(bool(n.get("isPostfix")))), fp
         if op in ("++", "--"):
             v = var_of(sub, scope)
             if v is None: raise Untranslatable(op + " on a non-variable")
@@ -495,13 +516,13 @@ def expr(n, scope):
                 return "(ECellStore %s (EConst %d) %s)" % (p, idx, e), f
             if la.get("kind") == "ArraySubscriptExpr" and is_pp(qt(unparen(la["inner"][0]))):
                 p_, fp = expr(la["inner"][0], scope); i_, fi = expr(la["inner"][1], scope); e, fe = expr(b, scope)
-                if fp.w or fi.w or fe.w: raise Untranslatable("subscripted store with side effects")
+                if fp.w or fe.w or not (order_ok(fp, fi) and order_ok(fi, fe)): raise Untranslatable("subscripted store whose operands depend on the evaluation order")
                 f = fx_join(fp, fx_join(fi, fe)); f.io = True
                 return "(ECellStore %s %s %s)" % (p_, i_, e), f
             if la.get("kind") == "UnaryOperator" and la.get("opcode") == "*" and is_pp(qt(unparen(la["inner"][0]))):
                 pv = unparen(la["inner"][0])
                 while pv.get("kind") == "ImplicitCastExpr": pv = unparen(pv["inner"][0])
-                if pv.get("kind") == "DeclRefExpr" and pv.get("referencedDecl", {}).get("kind") == "ParmVarDecl":
+                if pv.get("kind") == "DeclRefExpr" and pv.get("referencedDecl", {}).get("kind") == "ParmVarDecl" and norm_t(qt(pv)) != "void**":
                     nm = "*" + pv["referencedDecl"]["name"]; OUTPARAMS.add(nm)
                     e, f = expr(b, scope); f.w.add(nm)
                     return '(EAssign "%s" %s)' % (nm, e), f
@@ -564,6 +585,8 @@ def expr(n, scope):
                 es = elem_size(ta) * (1 if op == "+" else -1)
                 off = eb if es == 1 else "(EBin Mul (EConst %s) %s)" % (zlit(es), eb)
                 return "(EPtrAdd %s %s)" % (ea, off), fx_join(fa, fb)
+            if op == "*" and ta in SIZE_T and tb in SIZE_T:
+                return "(EBin Mul %s %s)" % (ea, eb), fx_join(fa, fb)      # a size from a count: checked as an int (faults beyond 2^31, where the source would still be fine)
             if op == "+" and ta in SIZE_T and tb in SIZE_T:
                 return "(ESizeAdd %s %s)" % (ea, eb), fx_join(fa, fb)      # sizes: non-negative, 64-bit wrap-around
             if ta in SIZE_T and tb in SIZE_T and op in ("==", "!=", "<", "<=", ">", ">="):
@@ -768,6 +791,7 @@ def main():
             body = [c for c in decl["inner"] if c.get("kind") == "CompoundStmt"][0]
             scope = set(params); declared = set(params)
             OUTPARAMS.clear(); EXTRA_LOCALS.clear()
+            CELLS_MODE[0] = any(c.get("kind") == "ParmVarDecl" and norm_t(qt(c)) == "void**" for c in decl["inner"])
             b = stmt(body, scope, declared)
             if "EDeref" in b and ("EReadByte" in b): raise Untranslatable("the input is used both as memory and as a stream")
             locs = [x for x in sorted(declared) if x not in params] + sorted(EXTRA_LOCALS) + sorted(OUTPARAMS)
